@@ -383,16 +383,7 @@ pub fn run_property<P: Prop>(prop: &P, opts: &RunOpts) -> RunSummary {
         violations = 1;
         exit = 1;
         let case_v = serde_json::to_value(case).unwrap_or(Value::Null);
-        let text = serde_json::to_string(&case_v).unwrap_or_default();
-        let mut h = std::collections::hash_map::DefaultHasher::new();
-        text.hash(&mut h);
-        let name = format!("{}-{:016x}.json", id, h.finish());
-        let dir = root.join("replays");
-        let _ = std::fs::create_dir_all(&dir);
-        let path = dir.join(name);
-        let fj: Vec<Value> = fails.iter().map(|f| json!({"sig": f.sig, "detail": f.detail})).collect();
-        let doc = json!({"property": id, "seed": opts.seed, "tier": opts.tier.name(), "case": case_v, "failures": fj});
-        let _ = std::fs::write(&path, serde_json::to_string_pretty(&doc).unwrap());
+        let (path, doc) = write_replay(id, opts.seed, opts.tier.name(), &case_v, fails);
         for f in fails {
             println!("FAIL property={} sig={} :: {}", id, f.sig, f.detail);
         }
@@ -452,6 +443,22 @@ pub fn run_property<P: Prop>(prop: &P, opts: &RunOpts) -> RunSummary {
         "engine": "pbt (proptest TestRunner, sharded)",
     });
     RunSummary { exit, evidence }
+}
+
+/// Write a replay file for a (shrunk / minimised) failing case.
+pub fn write_replay(id: &str, seed: u64, tier: &str, case_v: &Value, fails: &[Failure]) -> (PathBuf, Value) {
+    let root = verif_root();
+    let text = serde_json::to_string(case_v).unwrap_or_default();
+    let mut h = std::collections::hash_map::DefaultHasher::new();
+    text.hash(&mut h);
+    let name = format!("{}-{:016x}.json", id, h.finish());
+    let dir = root.join("replays");
+    let _ = std::fs::create_dir_all(&dir);
+    let path = dir.join(name);
+    let fj: Vec<Value> = fails.iter().map(|f| json!({"sig": f.sig, "detail": f.detail})).collect();
+    let doc = json!({"property": id, "seed": seed, "tier": tier, "case": case_v, "failures": fj});
+    let _ = std::fs::write(&path, serde_json::to_string_pretty(&doc).unwrap());
+    (path, doc)
 }
 
 pub fn write_evidence(id: &str, evidence: &Value) {
